@@ -69,6 +69,7 @@ class Cfg:
         self.tail_call_bias = 0  # percentage of functions that end in a statement call
         self.multiline = True
         self.multiline_pct = 12
+        self.nested_arg_pct = 30
         self.nested_defs = False  # nested function definitions: open finding F-D36 (register clash)
         self.d5_args = False  # pass bare names of writable globals as arguments (open finding F-D5 shape):
         #                       only for oracles that do not compare with the source interpreter
@@ -355,7 +356,7 @@ class ProgGen:
         """with some probability replace a non-first argument by a call of a value-returning function that
         takes arguments itself (the outer call's earlier arguments must survive the inner call)"""
         cands = [g for g in self.funcs if g["has_ret"] and g["npar"] >= 1]
-        if len(args) >= 2 and cands and not self.in_pure and not self.no_calls and self.chance(30):
+        if len(args) >= 2 and cands and not self.in_pure and not self.no_calls and self.chance(self.cfg.nested_arg_pct):
             g = self.choice(cands)
             g["calls"] += 1
             self.features.add("call-as-later-argument")
